@@ -113,6 +113,18 @@ def run_sharded(p, m, threads_note=''):
   return outs, _agg_list(runner.get_result(merged))
 
 
+def run_sharded_explicit(p, m, kind, n):
+  """the shards handed to the runner as its input, runner.iterate(source.shard(i, m)) (an explicit input overrides the pipeline's own source)"""
+  outs, states = [], []
+  for i in range(m):
+    it = p.make().iterate(_source(kind, n).shard(i, m))
+    outs.extend(it)
+    states.append(it.agg_state)
+  runner = p.make()
+  merged = runner.merge_states(states, strict_states_cnt=m)
+  return outs, _agg_list(runner.get_result(merged))
+
+
 def run_interleaved(p):
   from ml_metrics._src.chainables import orchestrate
   res = {k: orchestrate.RunnerResource(buffer_size=2, timeout=20) for k in p.named_transforms()}
@@ -136,6 +148,9 @@ def strategies(prog, thorough):
     out.append((f'shards={m}', dict(), ('sharded', m), False))
     for t in ((1, 2) if thorough else (2,)):
       out.append((f'shards={m} threads={t}', dict(threads=t), ('sharded', m), False))
+    if m > 1:
+      for t in (0, 2):
+        out.append((f'shards={m} as explicit inputs threads={t}', dict(threads=t) if t else dict(), ('sharded-explicit', m), False))
   return out
 
 
@@ -319,6 +334,8 @@ def body(chk):
                 status, val = dist.run_with_deadline(lambda: run_plain(p), 30)
               elif how == 'interleaved':
                 status, val = dist.run_with_deadline(lambda: run_interleaved(p), 30)
+              elif how[0] == 'sharded-explicit':
+                status, val = dist.run_with_deadline(lambda: run_sharded_explicit(p, how[1], kind, n), 30)
               else:
                 status, val = dist.run_with_deadline(lambda: run_sharded(p, how[1]), 30)
             except Exception as e:  # pylint: disable=broad-exception-caught
